@@ -30,7 +30,7 @@ def run_e1(pid, c, tier, seed):
     env = dict(c["env"]); env["REPO"] = REPO
     if c["harness_flags"]:
         env["HARNESS_FLAGS"] = c["harness_flags"]
-    rc, out = sh("engine/build_e1.sh %s %s %s" % (name, c["src"], c["libflags"]), env=env, timeout=600)
+    rc, out = sh(c.get("build_cmd") or "engine/build_e1.sh %s %s %s" % (name, c["src"], c["libflags"]), env=env, timeout=600)
     if rc != 0:
         raise CheckError("build failed:\n" + out[-3000:])
     stats = "build/%s/stats.json" % name
@@ -235,3 +235,16 @@ prop("C17", lambda tier: [e1("c17", "harness/c17_bulk.c"), e1("c17m", "harness/c
      "C: n in 0..4/7 x {many, various} x NULL-ness of results/ids/attrs x {packed, 2x stride, struct-embedded} with guard words around every slot; "
      "C++: task_group with 0..10/12 run() calls + second batch, parallel_for(first,last[,step[,grain]]) for all first,last in -2..4/5, step 1..3, grain 1..3; "
      "each x all schedules with <= K deviations on 1-2 workers; reference = the sequential loop")
+
+
+def e1wrap(name, src, mode, deadline=(100, 780)):
+    return {"kind": "e1", "name": name, "src": src, "libflags": "", "args": {"quick": "", "thorough": ""}, "deadline": {"quick": deadline[0], "thorough": deadline[1]},
+            "env": {}, "harness_flags": "", "require_pids": [], "build_cmd": "engine/build_e1_wrap.sh %s %s %s" % (name, src, mode)}
+
+
+prop("C16", lambda tier: [e1wrap("c16ld", "harness/c16_pthread.c", "ld"), e1wrap("c16dl", "harness/c16_pthread.c", "dl")],
+     "12 families of determinate pthread programs (spawn trees, attribute objects, detached threads, statically initialised mutex/cond first used concurrently, barrier phases, spin locks, once, "
+     "keys with destructors, self/equal, pthread_exit from nested frames, yield/usleep mixes) with 2-3 threads; reference = the same binary with MYTH_WRAP_PTHREAD=0 (system pthreads); "
+     "the redirected run is explored under all schedules with <= K deviations for both redirection mechanisms (ld --wrap objects, symbol-interposing objects)",
+     assumptions=E1_ASSUME + ["programs are determinate by construction (their log is ordered by joins); calls outside the supported subset are out of scope as the property says",
+                              "both mechanisms are exercised in statically linked form (objects compiled with MYTH_WRAP_LD + @myth-ld.opts; objects compiled with MYTH_WRAP_DL defining the pthread symbols themselves)"])
